@@ -29,8 +29,8 @@ from props import C03 as c3
 ID = 'C09'
 COQ_MODEL = 'model.History'
 COQ_CORR = 'corr_C09'
-N_QUICK = 260
-N_THOROUGH = 1500
+N_QUICK = 200
+N_THOROUGH = 700
 VM_CASES = 25
 RULE = ('cases = corpus + random histories of 1..8 requests on one application (outcome classes: handler programs of '
         'the C03 grammar incl. cookies/headers/status set on the response, raised and returned responses, crashes, '
